@@ -365,6 +365,7 @@ struct disk_set_info {
 	off_t bmp_pos;
 };
 
+static void sadump_attr_cleanup(struct attr_dict *dict);
 static void sadump_cleanup(struct kdump_shared *shared);
 
 static kdump_status
@@ -1141,6 +1142,7 @@ sadump_probe(kdump_ctx_t *ctx)
 
 	status = init_mem_pagemap(ctx);
 	if (status != KDUMP_OK) {
+		sadump_attr_cleanup(ctx->dict);
 		sadump_cleanup(ctx->shared);
 		return status;
 	}
@@ -1153,6 +1155,8 @@ sadump_attr_cleanup(struct attr_dict *dict)
 {
 	struct sadump_priv *sp = dict->shared->fmtdata;
 
+	if (!sp)
+		return;
 	attr_remove_override(dgattr(dict, GKI_memory_pagemap),
 			     &sp->mem_pagemap_override);
 }
